@@ -14,11 +14,10 @@ Proof. exact Vmax_r_correct. Qed.
 Print Assumptions bracket_twin_exact.
 
 (* BlindStrategies(fasterConvergence = true): every vector the run returns — after any number of
-   iterations, whatever the horizon and tolerance — is a sound lower bound.  [blind_start_ok]: the
-   std::max(0.0001, 1-discount) guard is inactive or the action's minimal reward is >= 0 (see
-   blind_start_guard_refuted in notes/C03.md for what happens otherwise). *)
+   iterations, whatever the horizon and tolerance — is a sound lower bound.  The model is the repaired
+   code (fixes/C03-bound-init-guard.patch): the start value divides by 1 - discount, not by
+   std::max(0.0001, 1 - discount) (see blind_guard_refuted below for the unrepaired start). *)
 Theorem blind_sound : forall m rmax h tol v, wf_pomdp m -> rmax_ok m rmax ->
-  (forall a, (a < nA (pm m))%nat -> blind_start_ok m a) ->
   In v (snd (blind_run m true h tol)) -> sound_lb m rmax (fun b => dot v b).
 Proof. intros m rmax h tol v Hwf. exact (blind_run_sound_lemma m Hwf rmax h tol v). Qed.
 Print Assumptions blind_sound.
@@ -30,12 +29,12 @@ Proof. intros m a k b Hwf. exact (blind_finite_lemma m Hwf a k b). Qed.
 Print Assumptions blind_finite_sound.
 
 (* FastInformedBound: every iterate from the over-estimate, hence whatever the run returns, is a sound upper bound *)
-Theorem fib_sound : forall m rmin h tol, wf_pomdp m -> rmin_ok m rmin -> fib_start_ok m ->
+Theorem fib_sound : forall m rmin h tol, wf_pomdp m -> rmin_ok m rmin ->
   sound_ub m rmin (lin_surface m (snd (fib_run m h tol))).
 Proof. intros m rmin h tol Hwf. exact (fib_run_sound_lemma m Hwf rmin h tol). Qed.
 Print Assumptions fib_sound.
 
-Theorem fib_iterates_sound : forall m rmin k, wf_pomdp m -> rmin_ok m rmin -> fib_start_ok m ->
+Theorem fib_iterates_sound : forall m rmin k, wf_pomdp m -> rmin_ok m rmin ->
   sound_ub m rmin (lin_surface m (fib_iter m k (fib_start m))).
 Proof. intros m rmin k Hwf. exact (fib_iter_sound_lemma m Hwf rmin k). Qed.
 Print Assumptions fib_iterates_sound.
@@ -127,12 +126,25 @@ Proof.
 Qed.
 Print Assumptions surface_of_sound_entries.
 
+(* bestPromisingAction<sawtooth>: the per-action value it reports, R(b,a) + g sum_o U(tau(b,a,o)) over the surface
+   of a sound state (= ub_backup, the model the driver compares every entry of `vals` with), is an upper bound
+   of the action's value at every level: Qlev n b a = R(b,a) + g sum_o [EV_(n-1) + g^(n-1) rmin/(1-g)](tau(b,a,o)),
+   max_a Qlev n b a = Vmin n b.  SARSOP stores these numbers as per-action upper bounds. *)
+Theorem best_promising_sound : forall m rmin st b a n, wf_pomdp m -> rmin_ok m rmin ->
+  state_sound m (rmin / (1 - gam (pm m))) st -> nonneg b -> length b = nS (pm m) -> (a < nA (pm m))%nat ->
+  Qlev m (rmin / (1 - gam (pm m))) n b a <= ub_backup m st b a.
+Proof.
+  intros m rmin st b a n Hwf Hr Hst Hn Hl Ha.
+  exact (Qlev_backup_bound m Hwf _ (tail_lo_rmin m Hwf rmin Hr) (usurf m st) b a (usurf_sound m Hwf _ st Hst) Hn Hl Ha n).
+Qed.
+Print Assumptions best_promising_sound.
+
 (* the initial entries of SARSOP / GapMin: every FIB iterate (no points yet) is a sound state *)
-Theorem fib_initial_state_sound : forall m rmin k, wf_pomdp m -> rmin_ok m rmin -> fib_start_ok m ->
+Theorem fib_initial_state_sound : forall m rmin k, wf_pomdp m -> rmin_ok m rmin ->
   state_sound m (rmin / (1 - gam (pm m))) (fib_iter m k (fib_start m), []).
 Proof.
-  intros m rmin k Hwf Hr Hok. pose proof (tail_lo_rmin m Hwf rmin Hr) as Hc.
-  destruct (fib_start_supersol m Hwf _ Hok Hc (rmin_lo m Hwf rmin Hr)) as [H1 H2].
+  intros m rmin k Hwf Hr. pose proof (tail_lo_rmin m Hwf rmin Hr) as Hc.
+  destruct (fib_start_supersol m Hwf _ Hc (rmin_lo m Hwf rmin Hr)) as [H1 H2].
   apply (fib_state_sound m Hwf _ Hc); assumption.
 Qed.
 Print Assumptions fib_initial_state_sound.
@@ -161,15 +173,15 @@ Proof.
 Qed.
 Print Assumptions perseus_sound.
 
-(* the hypotheses fib_start_ok / blind_start_ok cannot be dropped: with discount 16383/16384 > 0.9999 the
-   std::max(0.0001, 1 - discount) guard makes FIB start below, and Blind(fasterConvergence) start above, V* *)
+(* the unrepaired start value / std::max(0.0001, 1 - discount): with discount 16383/16384 > 0.9999 FIB
+   iterates from it fall below, and Blind(fasterConvergence) iterates rise above, V* *)
 Theorem fib_guard_refuted : exists m rmin, wf_pomdp m /\ rmin_ok m rmin /\
-  ~ sound_ub m rmin (lin_surface m (snd (fib_run m 3 0))).
+  ~ sound_ub m rmin (lin_surface m (snd (fib_run_from m 3 0 (fib_start_guarded m)))).
 Proof. exact fib_guard_refuted_lemma. Qed.
 Print Assumptions fib_guard_refuted.
 
-Theorem blind_guard_refuted : exists m rmax v, wf_pomdp m /\ rmax_ok m rmax /\
-  In v (snd (blind_run m true 3 0)) /\ ~ sound_lb m rmax (fun b => dot v b).
+Theorem blind_guard_refuted : exists m rmax, wf_pomdp m /\ rmax_ok m rmax /\
+  ~ sound_lb m rmax (fun b => dot (Nat.iter 3 (blind_step m 0) (blind_start_guarded m 0)) b).
 Proof. exact blind_guard_refuted_lemma. Qed.
 Print Assumptions blind_guard_refuted.
 
@@ -196,8 +208,7 @@ Proof.
 Qed.
 
 Example ex_hypotheses :
-  rmax_ok ex_pomdp 2 /\ rmin_ok ex_pomdp (-1) /\ fib_start_ok ex_pomdp /\
-  (forall a, (a < 2)%nat -> blind_start_ok ex_pomdp a) /\
+  rmax_ok ex_pomdp 2 /\ rmin_ok ex_pomdp (-1) /\
   supersol_okb ex_pomdp (snd (fib_run ex_pomdp 3 0)) 0 = true /\
   (* a non-trivial accepted lower-bound trace: two successive backups of the blind vectors *)
   (let init := snd (blind_run ex_pomdp true 2 0) in
@@ -212,11 +223,9 @@ Example ex_hypotheses :
       UbCorner 1 0 (ub_backup ex_pomdp (q, []) [0; 1] 0) 1;
       UbPrune [0%nat]] <> None).
 Proof.
-  split; [| split; [| split; [| split; [| split; [| split]]]]].
+  split; [| split; [| split; [| split]]].
   - intros [|[|s]] [|[|a]] Hs Ha; try (cbn in Hs, Ha; lia); vm_compute; discriminate.
   - intros [|[|s]] [|[|a]] Hs Ha; try (cbn in Hs, Ha; lia); vm_compute; discriminate.
-  - left. vm_compute. discriminate.
-  - intros a _. left. vm_compute. discriminate.
   - vm_compute. reflexivity.
   - vm_compute. discriminate.
   - vm_compute. discriminate.
